@@ -69,11 +69,9 @@ func TestVerifC17_Order(t *testing.T) {
 		}
 		c := vkit.NewCase().Key("order", d.describe(), calls, shards)
 		defer c.Done()
-		vc17Load(t, m, index, d)
+		vs1SetupErr(t, vc17Load(t, m, index, d), "loading %s", index)
 		defer func() {
-			if err := m.API.DeleteIndex(context.Background(), index); err != nil {
-				t.Fatalf("deleting index: %v", err)
-			}
+			vs1SetupErr(t, m.API.DeleteIndex(context.Background(), index), "deleting index %s", index)
 		}()
 		if err := m.API.RecalculateCaches(context.Background()); err != nil {
 			t.Fatalf("recalculating caches: %v", err)
